@@ -11,6 +11,7 @@ import (
 
 	"github.com/tuneinsight/lattigo/v6/core/rlwe"
 	"github.com/tuneinsight/lattigo/v6/ring"
+	"github.com/tuneinsight/lattigo/v6/schemes/bgv"
 )
 
 // ---------- canonical formatting ----------
@@ -341,4 +342,83 @@ func c19ProdBits(v []uint64) (*big.Int, int) {
 func c19Atoi(s string) int {
 	n, _ := strconv.Atoi(s)
 	return n
+}
+
+// c19BgvArithmetic encrypts two vectors under freshly generated keys of an *accepted* bgv literal and
+// checks Mul (scale-invariant or not), Relinearize and RotateColumns against the plaintext
+// computation. "" = all correct.
+func c19BgvArithmetic(lit bgv.ParametersLiteral, scaleInv bool) string {
+	return Try(func() string {
+		params, err := bgv.NewParametersFromLiteral(lit)
+		if err != nil {
+			return "rejected"
+		}
+		kgen := rlwe.NewKeyGenerator(params)
+		sk := kgen.GenSecretKeyNew()
+		evk := rlwe.NewMemEvaluationKeySet(kgen.GenRelinearizationKeyNew(sk), kgen.GenGaloisKeyNew(params.GaloisElementForColRotation(1), sk))
+		ecd := bgv.NewEncoder(params)
+		enc := rlwe.NewEncryptor(params, sk)
+		dec := rlwe.NewDecryptor(params, sk)
+		eval := bgv.NewEvaluator(params, evk, scaleInv)
+		n := params.MaxSlots()
+		t := params.PlaintextModulus()
+		a, b, out := make([]uint64, n), make([]uint64, n), make([]uint64, n)
+		for i := range a {
+			a[i] = uint64(i*7+3) % t
+			b[i] = uint64(i*13+5) % t
+		}
+		pa, pb := bgv.NewPlaintext(params, params.MaxLevel()), bgv.NewPlaintext(params, params.MaxLevel())
+		if err = ecd.Encode(a, pa); err != nil {
+			return "encode: " + c19Sanitize(err.Error())
+		}
+		_ = ecd.Encode(b, pb)
+		ca, _ := enc.EncryptNew(pa)
+		cb, _ := enc.EncryptNew(pb)
+		_ = ecd.Decode(dec.DecryptNew(ca), out)
+		for i := range out {
+			if out[i] != a[i] {
+				return fmt.Sprintf("decrypt(encrypt(a)) != a at slot %d", i)
+			}
+		}
+		var cm *rlwe.Ciphertext
+		if scaleInv {
+			cm, err = eval.MulScaleInvariantNew(ca, cb)
+		} else {
+			cm, err = eval.MulNew(ca, cb)
+		}
+		if err != nil {
+			return "mul: " + c19Sanitize(err.Error())
+		}
+		count := func(f func(i int) uint64, m int) int {
+			bad := 0
+			for i := 0; i < m; i++ {
+				if out[i] != f(i) {
+					bad++
+				}
+			}
+			return bad
+		}
+		_ = ecd.Decode(dec.DecryptNew(cm), out)
+		if bad := count(func(i int) uint64 { return a[i] * b[i] % t }, n); bad != 0 {
+			return fmt.Sprintf("mul wrong in %d/%d slots", bad, n)
+		}
+		cr, err := eval.RelinearizeNew(cm)
+		if err != nil {
+			return "relin: " + c19Sanitize(err.Error())
+		}
+		_ = ecd.Decode(dec.DecryptNew(cr), out)
+		if bad := count(func(i int) uint64 { return a[i] * b[i] % t }, n); bad != 0 {
+			return fmt.Sprintf("relinearize wrong in %d/%d slots", bad, n)
+		}
+		rot, err := eval.RotateColumnsNew(ca, 1)
+		if err != nil {
+			return "rotate: " + c19Sanitize(err.Error())
+		}
+		_ = ecd.Decode(dec.DecryptNew(rot), out)
+		h := n / 2
+		if bad := count(func(i int) uint64 { return a[(i+1)%h] }, h); bad != 0 {
+			return fmt.Sprintf("rotate wrong in %d/%d slots", bad, h)
+		}
+		return ""
+	})
 }
